@@ -12,7 +12,11 @@ static void write_file(const std::string &p, const std::string &t) { std::ofstre
 
 // one C13 case: returns "" when the oracle is satisfied
 inline std::string c13_case(const std::vector<std::string> &cat, const std::string &handle, const std::string &s, int prec, std::map<std::string, long> &cls) {
-  { Quiet q; masa_verif_reset(); if (prec) masa_init<long double>("pre-existing", cat[3]); else masa_init<double>("pre-existing", cat[3]); }
+  // every second case initialises the handle of the case beforehand (with another solution), so that the call under test re-uses a live handle:
+  // a rejected name must leave that registration alone as well
+  bool reuse = (handle.size() + s.size()) % 2 == 0; if (reuse) cls["handle_already_registered"]++;
+  { Quiet q; masa_verif_reset(); if (prec) masa_init<long double>("pre-existing", cat[3]); else masa_init<double>("pre-existing", cat[3]);
+    if (reuse) { if (prec) masa_init<long double>(handle, cat[5]); else masa_init<double>(handle, cat[5]); } }
   std::string before = listing(prec); std::string n = norm(s); bool known = std::find(cat.begin(), cat.end(), n) != cat.end();
   bool threw = false; int code = 0; std::string out; { Quiet q; try { if (prec) masa_init<long double>(handle, s); else masa_init<double>(handle, s); } catch (int e) { threw = true; code = e; } out = q.str(); }
   if (known) { cls["resolves"]++; if (threw) return "masa_init(h, \"" + show(s) + "\") is a fatal error although the string normalises to the catalogue name " + n;
@@ -23,6 +27,8 @@ inline std::string c13_case(const std::vector<std::string> &cat, const std::stri
   if (code != 1) return "fatal error of masa_init threw " + std::to_string(code);
   if (out.find("MASA FATAL ERROR") == std::string::npos) return "rejected name without 'MASA FATAL ERROR'";
   if (listing(prec) != before) return "a rejected masa_init(h, \"" + show(s) + "\") changed the registry";
+  if (reuse) { std::string nm; bool t2 = false; { Quiet q; try { if (prec) { masa_select_mms<long double>(handle); masa_get_name<long double>(&nm); } else { masa_select_mms<double>(handle); masa_get_name<double>(&nm); } } catch (int) { t2 = true; } }
+    if (t2 || nm != cat[5]) return "after a rejected masa_init(h, \"" + show(s) + "\") the solution previously registered under h is no longer reachable"; }
   return ""; }
 
 struct C13Case { std::string handle, s; int prec; };
